@@ -123,6 +123,25 @@ let handle op args =
        (* hypothesis of the invariant theorems, checked on every case *)
        if not (refl_wf s Datatypes.O init) then failwith "refl: initial state is not well formed";
        let (_, outs) = refl_run s d init sts in
+       (* the concrete machines of the refinement theorems (C28_dynamic_refines_abstract,
+          C28_opaque_refines_abstract) run next to the contract model: the hypothesis md_ok must
+          hold of the real schema and the results must coincide *)
+       let md0 = (match s with m :: _ -> m | [] -> []) in
+       let aouts = Stdlib.List.map fst outs in
+       let concrete name couts =
+         if couts <> aouts then failwith ("refl: concrete machine " ^ name ^ " disagrees with the contract model") in
+       (match _flavour with
+        | "dyn" | "dynrnd" | "opaque" ->
+          if not (Stdlib.List.for_all ReflectCellModel.refl_md_okb s) then
+            failwith "refl: schema violates md_ok (hypothesis of the refinement theorems)";
+          let macc = MsgValue.msg_macc_of init in
+          if _flavour = "opaque" then
+            concrete "opaque" (snd (ReflectCellModel.cm_run ReflectCellModel.opq_ops s d
+              (ReflectCellModel.cm_of_fields ReflectCellModel.opq_ops md0 ReflectCellModel.opq_lazycell macc) sts))
+          else
+            concrete "dynamicpb" (snd (ReflectCellModel.cm_run ReflectCellModel.dyn_ops s d
+              (ReflectCellModel.cm_of_fields ReflectCellModel.dyn_ops md0 (fun _ _ -> None) macc) sts))
+        | _ -> ());
        Stdlib.List.concat (Stdlib.List.map2 (fun st (o, m) ->
            out_tokens o @ (if refl_dumps st.rs_op then "s" :: Fam_msg.value_tokens m else []) @ [";"]) sts outs)
      | [] -> failwith "refl: missing op count")
